@@ -2407,3 +2407,194 @@ def r1_19(rep):
     rep.check(not rel, "helper-paths-absolute:bitfield_unit.rs", "every `core` / `std` path starts with `::`" if not rel else
               "%d paths such as `%s` have no leading `::`: a header item named `%s` in the same module shadows the crate" %
               (len(rel_full), rel_full[0], rel[0]), "bindgen/codegen/bitfield_unit.rs")
+
+
+# =====================================================================================================
+# R1.20 / R1.21 — bit-field accessors over every spelling of the declared type and of the unit field
+# =====================================================================================================
+def _quoted_fns(tokens):
+    """(name token, is_unsafe_fn, params [(ident, type tokens)], return type tokens, body token range) of each `fn` in a token list."""
+    out = []
+    i = 0
+    n = len(tokens)
+    while i < n:
+        if tokens[i] != "fn" or i + 2 >= n or tokens[i + 2] != "(":
+            i += 1
+            continue
+        name = tokens[i + 1]
+        uns = i > 0 and tokens[i - 1] == "unsafe"
+        # parameter list
+        j = i + 3
+        depth = 1
+        start = j
+        while j < n and depth:
+            depth += tokens[j] in ("(", "[", "{", "<") and 1 or 0
+            depth -= tokens[j] in (")", "]", "}", ">") and tokens[j - 1] != "-" and 1 or 0
+            j += 1
+        ptoks = tokens[start:j - 1]
+        params = []
+        cur = []
+        d = 0
+        for t in ptoks + [","]:
+            if t == "," and d == 0:
+                if ":" in cur:
+                    k = cur.index(":")
+                    params.append((cur[k - 1], cur[k + 1:]))
+                cur = []
+                continue
+            d += t in ("(", "[", "<") and 1 or 0
+            d -= t in (")", "]", ">") and 1 or 0
+            cur.append(t)
+        ret = []
+        if j < n and tokens[j] == "->":
+            j += 1
+            while j < n and tokens[j] != "{":
+                ret.append(tokens[j])
+                j += 1
+        if j >= n or tokens[j] != "{":
+            i += 1
+            continue
+        b0 = j
+        depth = 0
+        while j < n:
+            depth += tokens[j] == "{"
+            depth -= tokens[j] == "}"
+            j += 1
+            if depth == 0:
+                break
+        out.append((name, uns, params, ret, (b0, j)))
+        i = j
+    return out
+
+
+def _unsafe_ctx(tokens, lo, hi):
+    """for each index in [lo, hi): is it inside an `unsafe { .. }` block"""
+    res = {}
+    stack = []
+    for i in range(lo, hi):
+        t = tokens[i]
+        if t == "{":
+            stack.append(i > 0 and tokens[i - 1] == "unsafe")
+        elif t == "}":
+            if stack:
+                stack.pop()
+        res[i] = any(stack)
+    return res
+
+
+def _accessor_role(uns, params, ret, decl):
+    """getter / setter / raw_getter / raw_setter, from the shape of the quoted fn (not from what the interpolated name is called)"""
+    returns = bool(ret) and (decl is None or ret[0] in decl)
+    return ("raw_" if uns else "") + ("getter" if returns else "setter")
+
+
+@RULES.rule("R1.20", "bit-field accessors convert between the declared type and the unit's integer by a conversion every declared type has", floor=8)
+def r1_20(rep):
+    """`#bitfield_ty` is whatever `to_rust_ty_or_opaque` spells for the bit-field's type: a primitive, a `#[repr]` Rust enum — or, for an
+    enum under `--default-enum-style newtype` / `bitfield`, a tuple struct.  `as` only exists between primitives (and from field-less
+    enums): `let val: u32 = val as _;` with `val: E` where `pub struct E(pub u32)` is E0605.  The getters of the plain branch use
+    `transmute`, which every same-sized type has.  Per accessor in the quotes of `Bitfield::codegen`: no `as` applied to a parameter
+    whose type is the interpolated declared type, no `as _` producing the declared return type."""
+    prog = rep.prog
+    b = rep.need(prog.impl_fn("codegen::FieldCodegen", "ir::comp::Bitfield", "codegen"), "<Bitfield as FieldCodegen>::codegen")
+    # which interpolated local is the declared type: the one initialised from to_rust_ty_or_opaque
+    decl = set()
+    for q in qq.quote_sites(b):
+        for nm, node in q.interps().items():
+            init = b.local_init(node["id"])
+            if init is not None and "to_rust_ty_or_opaque" in b.canon(init, 6):
+                decl.add("#" + nm)
+    rep.need(decl, "the interpolated declared type of the bit-field")
+    n = 0
+    for q in qq.quote_sites(b):
+        atoms = qq.guard_atoms(b, q.root)
+        wrapper = any("is_union" in a and pol for a, pol, _ in atoms)
+        branch = "union-wrapper" if wrapper else "plain"
+        for name, uns, params, ret, (lo, hi) in _quoted_fns(q.tokens):
+            toks = q.tokens
+            for ident, ty in params:
+                if len(ty) == 1 and ty[0] in decl:
+                    n += 1
+                    casts = [i for i in range(lo, hi - 1) if toks[i] == ident and toks[i + 1] == "as" and toks[i - 1] not in (".", "let")]
+                    rep.check(not casts, "from-declared-type:%s:%s" % (branch, _accessor_role(uns, params, ret, decl)),
+                              "the declared type is converted without `as`" if not casts else
+                              "`%s as ..` with `%s: %s`: E0605 whenever the declared type is not a primitive (an enum under "
+                              "--default-enum-style newtype: `non-primitive cast: E as u32`)" % (ident, ident, ty[0]), q.loc())
+            if len(ret) == 1 and ret[0] in decl:
+                n += 1
+                # the value of the body: tokens just before the closing braces
+                k = hi - 1
+                while k > lo and toks[k] == "}":
+                    k -= 1
+                tail_cast = toks[k] == "_" and toks[k - 1] == "as"
+                rep.check(not tail_cast, "to-declared-type:%s:%s" % (branch, _accessor_role(uns, params, ret, decl)),
+                          "the declared type is produced without `as`" if not tail_cast else
+                          "the body ends in `as _` with return type `%s`: E0605 whenever the declared type is not a primitive" % ret[0], q.loc())
+    rep.need(n >= 8, "accessors taking or returning the declared type")
+    # the constructor: `BitfieldUnit::codegen` declares one parameter `#param_name: #bitfield_ty` per bit-field and
+    # `Bitfield::extend_ctor_impl` converts it
+    e = rep.need(prog.fn("ir::comp::Bitfield::extend_ctor_impl") or
+                 next((bb for pp, bb in prog.bodies.items() if pp.endswith("::extend_ctor_impl")), None), "Bitfield::extend_ctor_impl")
+    for q in qq.quote_sites(e):
+        t = q.tokens
+        params = {p_["name"] for p_ in e.params if p_.get("name")}
+        casts = [i for i in range(1, len(t) - 1) if t[i].startswith("#") and t[i][1:] in params and t[i + 1] == "as" and t[i - 1] == "="]
+        rep.check(not casts, "from-declared-type:ctor:extend_ctor_impl", "the constructor converts its parameters without `as`" if not casts else
+                  "`%s as _` on a constructor parameter of the declared type: E0605 whenever that type is not a primitive" % t[casts[0]], q.loc())
+
+
+def _union_field_unsafe_methods(prog):
+    """names of the `unsafe fn`s of the emitted `__BindgenUnionField` helper (read from its quote)"""
+    out = set()
+    for p, b in prog.bodies.items():
+        if not p.startswith("codegen::"):
+            continue
+        for q in qq.quote_sites(b):
+            if not q.has("impl", "<", "T", ">", "__BindgenUnionField", "<", "T", ">"):
+                continue
+            t = q.tokens
+            for i in range(len(t) - 2):
+                if t[i] == "unsafe" and t[i + 1] == "fn":
+                    out.add(t[i + 2])
+    return out
+
+
+@RULES.rule("R1.21", "the unit field of a bit-field run in a union is reached the way its wrapper allows", floor=6)
+def r1_21(rep):
+    """Inside a union the unit field is wrapped like every other member: `__BindgenUnionField<Unit>` when Rust unions are not used,
+    whose `as_ref` / `as_mut` are `unsafe fn` (E0133 when called from a safe accessor outside `unsafe { }`), and — before the fix —
+    `ManuallyDrop<Unit>` in a non-Copy Rust union, through which the raw accessors' `addr_of!((*this).unit)` has the wrong pointer type
+    (E0308).  (1) in the quotes of `Bitfield::codegen`, every call of an unsafe method of the wrapper sits in an `unsafe fn` or an
+    `unsafe { }` block; (2) `BitfieldUnit::codegen` asks for the union wrapper only when the record is not a Rust union."""
+    prog = rep.prog
+    b = rep.need(prog.impl_fn("codegen::FieldCodegen", "ir::comp::Bitfield", "codegen"), "<Bitfield as FieldCodegen>::codegen")
+    unsafe_methods = rep.need(_union_field_unsafe_methods(prog), "unsafe fns of the __BindgenUnionField helper")
+    rep.note("unsafe methods of __BindgenUnionField", sorted(unsafe_methods))
+    n = 0
+    for q in qq.quote_sites(b):
+        atoms = qq.guard_atoms(b, q.root)
+        if not any("is_union" in a and pol for a, pol, _ in atoms):
+            continue
+        toks = q.tokens
+        for name, uns, params, ret, (lo, hi) in _quoted_fns(toks):
+            ctx = _unsafe_ctx(toks, lo, hi)
+            calls = [i for i in range(lo, hi - 1) if toks[i] == "." and toks[i + 1] in unsafe_methods and toks[i + 2] == "(" and
+                     (toks[i - 1] == ")" or (toks[i - 1].startswith("#") and len(toks[i - 1]) > 1 and toks[i - 2] == "."))]
+            if not calls:
+                continue
+            n += 1
+            bad = [i for i in calls if not uns and not ctx.get(i)]
+            rep.check(not bad, "wrapper-access-in-unsafe:%s" % _accessor_role(uns, params, ret, None),
+                      "`.%s()` on the wrapped unit sits inside `unsafe`" % toks[calls[0] + 1] if not bad else
+                      "`.%s()` of `__BindgenUnionField` is an `unsafe fn` and is called from the safe `fn %s` outside an `unsafe` block: "
+                      "E0133 for every union with bit-fields under --disable-untagged-union" % (toks[bad[0] + 1], name), q.loc())
+    rep.need(n >= 4, "accessors of the union-wrapper branch that reach through the wrapper")
+    u = rep.need(prog.impl_fn("codegen::FieldCodegen", "ir::comp::BitfieldUnit", "codegen"), "<BitfieldUnit as FieldCodegen>::codegen")
+    wraps = [c for c in u.calls(lambda x: x["k"] == "Call" and (x.get("callee") or "").endswith("wrap_union_field_if_needed"))]
+    for c in wraps:
+        at = qq.guard_atoms(u, c)
+        ok = any("is_rust_union" in a and not pol for a, pol, _ in at)
+        rep.check(ok, "unit-bare-in-rust-union@BitfieldUnit::codegen", "the unit is only wrapped when the record is not a Rust union" if ok else
+                  "the unit of a Rust union goes through `wrap_union_field_if_needed`, which wraps it in `ManuallyDrop` when the union is not "
+                  "Copy: `raw_get_const(addr_of!((*this)._bitfield_1))` then gets a `*const ManuallyDrop<..>` (E0308)", u.loc(c))
+    rep.check(True, "unit-wrap-sites", "%d wrap sites in BitfieldUnit::codegen" % len(wraps))
